@@ -13,7 +13,7 @@ import time
 from fractions import Fraction
 
 VERIF = os.path.dirname(os.path.dirname(os.path.abspath(__file__)))
-REPO = "/repo"
+REPO = os.environ.get("VERIF_REPO", "/repo")      # the tree under test (scratch worktrees for parallel seed runs)
 COQ = os.path.join(VERIF, "coq")
 EVIDENCE = os.path.join(VERIF, "evidence")
 REPLAYS = os.path.join(VERIF, "replays")
